@@ -541,6 +541,15 @@ func pathD(v ssa.Value, d int) string {
 		return pathD(x.X, d-1) + "." + fieldName(x.X.Type(), x.Field)
 	case *ssa.UnOp:
 		if x.Op == token.MUL {
+			// a field of a local struct that is written exactly once (a carrier struct
+			// filled field by field) is the value written
+			if fa, ok := x.X.(*ssa.FieldAddr); ok {
+				if a, isA := fa.X.(*ssa.Alloc); isA {
+					if sv := singleFieldStore(a, fa.Field); sv != nil {
+						return pathD(sv, d-1)
+					}
+				}
+			}
 			p := pathD(x.X, d)
 			if strings.HasPrefix(p, "&") {
 				return p[1:]
@@ -736,20 +745,10 @@ func Derives(v ssa.Value, pred VP) bool {
 					return true
 				}
 			}
-			for _, r := range *x.Referrers() {
-				var sub ssa.Value
-				switch fa := r.(type) {
-				case *ssa.FieldAddr:
-					sub = fa
-				case *ssa.IndexAddr:
-					sub = fa
-				}
-				if sub != nil && sub.Referrers() != nil {
-					for _, rr := range *sub.Referrers() {
-						if st, ok := rr.(*ssa.Store); ok && st.Addr == sub && rec(st.Val, d-1) {
-							return true
-						}
-					}
+			// stores into parts of the local (fields of elements of a literal table, ...)
+			for _, st := range partStores(x, 4) {
+				if rec(st.Val, d-1) {
+					return true
 				}
 			}
 			return false
@@ -1274,6 +1273,24 @@ func helperValue(v ssa.Value) (*helper, int) {
 // unhelp: the value behind a call of a transparent helper that has a single way of returning it.
 func unhelp(v ssa.Value) ssa.Value {
 	for i := 0; i < 4 && len(helpers) > 0; i++ {
+		// a parameter of a transparent helper with one call site: the argument
+		if p, isP := v.(*ssa.Parameter); isP {
+			h := helperFor(p.Parent())
+			if h == nil || len(h.sites) != 1 {
+				break
+			}
+			moved := false
+			for j, q := range p.Parent().Params {
+				if q == p && j < len(h.sites[0].Common().Args) {
+					v = h.sites[0].Common().Args[j]
+					moved = true
+				}
+			}
+			if !moved {
+				break
+			}
+			continue
+		}
 		h, idx := helperValue(v)
 		if h == nil {
 			break
@@ -1304,4 +1321,75 @@ func typedField(v ssa.Value) string {
 		return n + "." + fieldName(x.X.Type(), x.Field)
 	}
 	return ""
+}
+
+// singleFieldStore: the value stored into field f of local struct a when the
+// field is written exactly once in the function, the struct is never written
+// as a whole after its zero initialisation, and its address does not escape
+// through a call.
+func singleFieldStore(a *ssa.Alloc, f int) ssa.Value {
+	var sv ssa.Value
+	n := 0
+	for _, r := range *a.Referrers() {
+		switch x := r.(type) {
+		case *ssa.FieldAddr:
+			if x.Field != f {
+				continue
+			}
+			for _, rr := range *x.Referrers() {
+				switch y := rr.(type) {
+				case *ssa.Store:
+					if y.Addr == ssa.Value(x) {
+						n++
+						sv = y.Val
+					}
+				case *ssa.UnOp:
+				default:
+					return nil // address of the field passed on
+				}
+			}
+		case *ssa.Store:
+			if x.Addr == ssa.Value(a) {
+				if _, zero := x.Val.(*ssa.Const); !zero {
+					return nil
+				}
+			}
+		case *ssa.UnOp, *ssa.DebugRef:
+		case ssa.CallInstruction:
+			return nil
+		}
+	}
+	if n != 1 {
+		return nil
+	}
+	return sv
+}
+
+// partStores: the stores into addresses derived from v by field and index steps.
+func partStores(v ssa.Value, depth int) []*ssa.Store {
+	var out []*ssa.Store
+	if depth == 0 || v.Referrers() == nil {
+		return nil
+	}
+	for _, r := range *v.Referrers() {
+		var sub ssa.Value
+		switch fa := r.(type) {
+		case *ssa.FieldAddr:
+			sub = fa
+		case *ssa.IndexAddr:
+			sub = fa
+		case *ssa.Slice:
+			sub = fa
+		}
+		if sub == nil || sub.Referrers() == nil {
+			continue
+		}
+		for _, rr := range *sub.Referrers() {
+			if st, ok := rr.(*ssa.Store); ok && st.Addr == sub {
+				out = append(out, st)
+			}
+		}
+		out = append(out, partStores(sub, depth-1)...)
+	}
+	return out
 }
